@@ -135,7 +135,7 @@ def families(tier):
            "0 <= x3 <= %d" % NOP, "a3 >= -1", "t >= 0"]
     if not thorough:
         pre += ["x4 == %d" % NOP, "a4 == 0", "1 <= sizeA <= 2", "sizeB == 2", "a2 <= 2", "a3 <= 1", "named == 0 or x1 == 3", "t >= 4"]
-        parts = [p + [q] for p in parts_product(x1=range(5), x2=range(NOP)) for q in ("x3 <= 2", "3 <= x3 <= 5", "6 <= x3 <= 8", "x3 >= 9")]
+        parts = [p + [q] for p in parts_product(x1=range(5), x2=range(NOP)) for q in ("x3 <= 5", "x3 >= 6")]
     else:
         pre += ["x4 == %d" % NOP, "a4 == 0", "1 <= sizeA <= 3", "1 <= sizeB <= 2", "a2 <= 2", "a3 <= 2"]
         parts = refine(parts_product(named=(0, 1), x1=range(5), x2=range(NOP)), ["x2 == %d" % k for k in range(5)], "x3", range(NOP + 1))
